@@ -348,6 +348,29 @@ Section CacheProofs.
   Qed.
 
   (* ---------- size ---------- *)
+  (* a committed Set replaces whatever is stored under its key -- a live
+     entry, an expired one that is still physically present, or nothing --
+     whatever the sign of its time-to-live *)
+  Theorem set_replaces lim id k v ttl tb (c : cache) now :
+    snd (step keq sz lim c (OSet id k v ttl tb)) = RSet true ->
+    get keq (fst (step keq sz lim c (OSet id k v ttl tb))) k now =
+    if now <=? tb + ttl then Some v else None.
+  Proof.
+    cbn [step]. destruct (set_ keq sz lim id k v ttl tb c) as [c1 ok] eqn:E. cbn [fst snd].
+    intros [= ->]. apply set_ok in E. destruct E as (S & _).
+    unfold get. rewrite S, lookup_upd_eq. reflexivity.
+  Qed.
+
+  (* time-to-live zero or negative: no replay at any instant after the clock
+     reading of the Set (no hypothesis on sleepers: they need not have run) *)
+  Theorem nonpositive_ttl_dead lim h k now :
+    (forall id v ttl tb, In (OSet id k v ttl tb) h -> ttl <= 0 /\ tb < now) ->
+    get keq (exec keq sz lim empty h) k now = None.
+  Proof.
+    intros A. apply miss_after_expiry. intros id v ttl tb I.
+    destruct (A _ _ _ _ I). lia.
+  Qed.
+
   Hypothesis sz_nonneg : forall k v, 0 <= sz k v.
 
   Definition size_inv (mx : Z) (c : cache) : Prop :=
@@ -661,6 +684,28 @@ Section CachingProofs.
     unfold key_of in Kq. injection Kq as -> -> Hq. apply hash_inj in Hq.
     exists id, ps', (e_val e), t. repeat split; try assumption; [symmetry; exact Hq|lia].
   Qed.
+
+  Lemma creq_out conf (c : ccache H) m u ps now :
+    snd (cstep H hash heq conf c (CReq m u ps now)) = CNoOp \/
+    exists vid, snd (cstep H hash heq conf c (CReq m u ps now)) = CEarly vid.
+  Proof.
+    cbn. destruct (get ckey_eqb c (key_of H hash conf m u ps) now) as [v|]; cbn.
+    - right. exists (r_vid v). reflexivity.
+    - left. reflexivity.
+  Qed.
+
+  (* ttl_seconds zero or negative: a stored response is never replayed at an
+     instant after the OnResponse that stored it *)
+  Theorem caching_nonpositive_ttl conf h m u ps now :
+    c_ttl conf <= 0 ->
+    (forall id ps' v t, In (CResp id m u ps' v t) h -> t < now) ->
+    snd (cstep H hash heq conf (cexec H hash heq conf empty h) (CReq m u ps now)) = CNoOp.
+  Proof.
+    intros Tz A.
+    destruct (creq_out conf (cexec H hash heq conf empty h) m u ps now) as [E|[vid E]]; [exact E|].
+    exfalso. destruct (caching_replay conf h m u ps now vid E) as (id & ps' & v & t & I & _ & _ & Fr & _).
+    specialize (A _ _ _ _ I). lia.
+  Qed.
 End CachingProofs.
 
 (* ------------------------------------------------------------------ *)
@@ -753,4 +798,36 @@ Proof.
     intros [= <- <-]. exists id, st, ra, t. apply Z.leb_gt in Le. subst t.
     repeat split; try assumption; lia.
   - cbn in Nt. discriminate.
+Qed.
+
+Lemma treq_out conf (c : tcache) m u now :
+  snd (tstep conf c (TReq m u now)) = TNoOp \/
+  exists vid ra, snd (tstep conf c (TReq m u now)) = TEarly vid ra.
+Proof.
+  cbn. destruct (get tkey_eqb c (m, u) now) as [v|]; cbn; [|left; reflexivity].
+  destruct (t_type conf); cbn.
+  - right. eexists _, _. reflexivity.
+  - destruct (t_ra v) as [ra|]; cbn; [|left; reflexivity].
+    destruct (ra <=? now - t_created v); cbn; [left; reflexivity|].
+    right. eexists _, _. reflexivity.
+  - right. eexists _, _. reflexivity.
+Qed.
+
+(* a throttling response whose retry-after time is not in the future any more
+   is not replayed: absolute epoch [ra < now]; relative [t + ra <= now] (the
+   code refuses at lapsed >= retry-after), in particular every retry-after
+   value <= 0 at every instant from its reception on *)
+Theorem throttle_not_in_future conf h m u now :
+  (forall id status vid ra t, In (TResp id m u status vid (Some ra) t) h ->
+     match t_type conf with
+     | RAbs => ra < now
+     | RRel => t + ra <= now
+     | RUndef => True
+     end) ->
+  snd (tstep conf (texec conf empty h) (TReq m u now)) = TNoOp.
+Proof.
+  intros A.
+  destruct (treq_out conf (texec conf empty h) m u now) as [E|(vid & ra' & E)]; [exact E|].
+  exfalso. destruct (throttle_replay conf h m u now vid ra' E) as (id & st & ra & t & I & _ & C).
+  specialize (A _ _ _ _ _ I). destruct (t_type conf); [lia|lia|contradiction].
 Qed.
